@@ -4017,3 +4017,8 @@ where
 {
     (n % rhs == N::default()).then_some(n / rhs)
 }
+
+// verification hook: inert unless built by `cargo kani` (cfg(kani)); see /verif/DESIGN.md
+#[cfg(kani)]
+#[path = "/verif/harness/encode.rs"]
+mod verif_k;
